@@ -131,21 +131,22 @@ PROPS = {
     },
     "C17": {
         "bundles": ["cfgmatch"],
-        "fns": {"cfgmatch": ["Props::update_from"]},
+        "fns": {"cfgmatch": ["Props::update_from", "is_compartment"]},
         "assumptions": ["serde_yml shims: Value is an enum of which only Mapping and String carry structure; Mapping is an opaque ordered list of entries ent(); ASSUMED: Mapping::get(&str) finds an entry with that string key iff one exists, keys are unique, iterating a mapping yields its entries (rewrite R20 -> map_pairs), `map.keys().filter_map(Value::as_str)` contains every string key (R17 -> string_keys; nothing is assumed about further elements such as untagged tagged strings), Value::clone yields an equal value",
                         "strings: vstd's view of str / String as a sequence of chars; byte offsets through an uninterpreted UTF-8 length ulen with ASSUMED additivity and ulen('.') = 1; ASSUMED contracts of the shims the string operations are rewritten to (R17, each tied to the exact expression text): starts_with = char prefix, `k[n..].starts_with('.')` and `&s[n..]` require n to be a char boundary (a prefix of that byte length exists) and then look at / return the rest, String::len = ulen, contains(<any>) uninterpreted",
                         "Props shim: `set` is recorded in a ghost list (first-write-wins of the real FxHashMap entry API is not modelled); the recursion of update_from is verified with decreases path.len()",
                         "the specification `addressed` is written for the NESTED form that Cfg::new produces; that compartmentalize_map produces the nested form of a flat configuration is not proved (bounded replay)"],
-        "not_covered": ["BOUNDED only (replay/cfg_driver, never counted as proved): Cfg::new / compartmentalize_map (finding F10 was there), Props::set / keys / get_raw, a second configuration captured into the same Props, no panic for non-ASCII names; flat dotted-key configurations only, values are integers",
-                        "(not covered at all) typed reads `Prop<T>` ('a property keeps the type it was first read or written with'), the order of include_cfg and node creation in des/src/net/runtime/mod.rs and des/src/net/ndl/mod.rs, YAML parsing"],
+        "not_covered": ["BOUNDED only (replay/cfg_driver, never counted as proved): Cfg::new / compartmentalize_map (finding F10 was there), Props::set / keys / get_raw, a second configuration captured into the same Props, a typed property written before the configuration arrives keeps value and type, no panic for non-ASCII names; flat dotted-key configurations only, values are integers",
+                        "BOUNDED only (replay/cfgsim_driver): the order of Sim::include_cfg and Sim::node (des/src/net/runtime/mod.rs) does not matter: every module of a random small tree ends up with exactly the properties addressed to it",
+                        "(not covered at all) typed reads `Prop<T>` beyond the one case above, des/src/net/ndl/mod.rs, YAML parsing"],
     },
     "C18": {
         "bundles": ["ndlparse"],
         "fns": {"ndlparse": ["TypClause@FromStr::from_str", "ModuleGenericsDef@FromStr::from_str", "FieldDef@FromStr::from_str"]},
         "assumptions": ["totality only: every std string operation of the three parsers (split_once, ends_with, trim, trim_end_matches, to_string, parse::<usize>, format!) is rewritten (R17, tied to the exact expression text) to a shim without precondition - ASSUMED: none of them panics; `assert!(c)` of the real code is an obligation (R1: rt_assert requires c); the std trait FromStr is restated inside the unit",
                         "`rem.split(\", \").map(Arg::from_str).collect::<Result<Vec<_>, _>>().map_err(..)` is one shim (parse_args): total if Arg::from_str is - for ModuleGenericsDef that is verified here, for String it is std"],
-        "not_covered": ["BOUNDED only (replay/ndl_driver, never counted as proved): ndl::transform and everything below it (dependency ordering, inheritance, generics, clusters, connections: FxHashMap lookups with `.expect(\"unreachable: parse order ...\")`, asserts, index expressions) never panics on generated descriptions and single-point mutations; unmutated descriptions elaborate to Ok. Finding F12 was there",
-                        "(not covered at all) the second half of C18: that the built simulation contains exactly the described modules, gate clusters and connections (des/src/net/ndl/mod.rs, registry, builder) - no reference elaborator was written; serde's own parsing of the YAML document"],
+        "not_covered": ["BOUNDED only (replay/ndl_driver, never counted as proved): ndl::transform and everything below it (dependency ordering, inheritance, generics, clusters, connections: FxHashMap lookups with `.expect(\"unreachable: parse order ...\")`, asserts, index expressions) never panics on generated descriptions and single-point mutations; mutated descriptions are answered with an error; unmutated descriptions elaborate to the network the template denotes (reference for this one template). Findings F12 and F14 were there",
+                        "(not covered at all) that the simulation BUILT from the elaborated network contains exactly the described modules, gate clusters and connections (des/src/net/ndl/mod.rs, registry, builder); descriptions outside the one template; serde's own parsing of the YAML document"],
     },
     "C12": {
         "bundles": ["moduletree", "lifecycle"],
